@@ -18,7 +18,8 @@ spec -> code
   (ii)  TLC (MC_C12M) builds every one-symbol mutation (insert/delete/replace at every position)
         of valid tag texts - layouts Text(args, style) exported by MC_C02 - same three channels.
   Verdict: every outcome must be in ParseOutcomes = {ok, TemplateSyntaxError}; another exception
-  class, exceeding the time bound (see below) or MemoryError under RLIMIT_AS is a violation.
+  class, exceeding the time bound (see below) or MemoryError under RLIMIT_AS (4 GB on top of what
+  the forked worker starts with) is a violation.
   (iii) round trip: for every valid text of the MC_C02 export, the real
         " ".join(TagAttr.serialize()) is re-parsed: equal AST, and the probe tag fed with the
         serialisation receives the same values as with the original text.
@@ -28,7 +29,7 @@ spec -> code
         C code - the `re` engine - is invisible to this measure.)
   (v)   pumped inputs (specs/AdversarialInputs.tla, MC_C12P): TLC builds every (pre, u, suf)
         with Len(pre)+Len(u)+Len(suf) <= T over both alphabets and a repetition count k (quick
-        T=3, k=48); the text pre . u^k . suf - opened strings / brackets / translations /
+        T=3, k=48: 43 400 texts; thorough T=4, Len(u) <= 2, k=56: 591 240 texts); the text pre . u^k . suf - opened strings / brackets / translations /
         comments with a unit repeated far beyond the exhaustive bound, closed, left
         unterminated (suf empty) or failing at the very end - goes through the same channels.
   (vi)  library tags (MC_C12T): every tag the library registers (component, slot, fill, provide,
@@ -36,7 +37,8 @@ spec -> code
         component) followed by every sequence of <= N words of LeadWords (quoted names,
         variables, keywords, `name=`, flags, spreads, literals, garbage: the required leading
         arguments present, missing or replaced), self-closing / block / left open, at top level
-        and inside a component body; TLC exports the source, the harness calls Template(src).
+        and inside a component body (N=2: 43 902 sources); TLC exports the source, the harness
+        calls Template(src).
   Time bound: every parser run of every set happens under a CPU-time budget of the worker
   process (ITIMER_PROF; wall time and machine load do not matter) of
   CpuBudgetMs(characters) = 1000 ms + n^2/1000 ms (AdversarialInputs.tla; the unchanged scanners
@@ -234,8 +236,10 @@ def _init_worker(budget: Optional[float] = None, limit_memory: bool = True) -> N
     _E["budget"] = budget
     signal.signal(signal.SIGPROF, _alarm)
     if limit_memory:        # only in forked workers: the main process still has to start JVMs
-        try:
-            resource.setrlimit(resource.RLIMIT_AS, (MEM_LIMIT, MEM_LIMIT))
+        try:                # MEM_LIMIT on top of what the worker inherits from the parent (its input lists)
+            with open("/proc/self/statm") as f:
+                have = int(f.read().split()[0]) * os.sysconf("SC_PAGE_SIZE")
+            resource.setrlimit(resource.RLIMIT_AS, (have + MEM_LIMIT, have + MEM_LIMIT))
         except (ValueError, OSError):
             pass
     sys.setrecursionlimit(3000)
@@ -1109,7 +1113,7 @@ def run(tier: str) -> int:
              c02_tier="selftest", rt_k=3, pump=(3, 3, 1, [48]), lib_words=2)
     else:
         core(chk, tier, procs=8, maxlen=5, n_bases=800, grow_n=32, n_rand=(30000, 15000, 6000, 1500, 9000, 6000),
-             c02_tier="quick", rt_k=6, pump=(4, 2, 1, [56]), lib_words=3)
+             c02_tier="quick", rt_k=6, pump=(4, 2, 1, [56]), lib_words=2)
     chk.cov["evaluations"] = chk.cov["inputs"] + chk.cov["roundtrips"] + chk.cov["growth_measurements"] \
         + chk.cov["traces_validated_against_impl"]
     chk.cov["distinct_nontrivial"] = chk.cov["inputs_nontrivial"]
